@@ -224,7 +224,9 @@ def report(prop, a, seed, results, wall):
         print(f"KNOWN-FINDING: property={prop} {k['text']} (obligation {k['obligation']})")
 
     discharged = len(by.get("discharged", []))
-    total = len([o for o in obl if o["status"] != "error"])
+    # obligations claimed by this run: everything generated except the refuted ones listed as known findings
+    # (those are reported separately, by name, and printed as KNOWN-FINDING)
+    total = len([o for o in obl if o["status"] != "error"]) - len(known_hit)
     if a.v or errors or undec:
         for o in (errors + undec)[:12]:
             print(f"  {o['status'].upper()} {o['name']}: {o['detail'][:600]}")
@@ -309,6 +311,7 @@ def write_evidence(prop, a, seed, results, obl, discharged, total, known_hit, ne
                 }
                 for r in results
             ],
+            "obligations_generated_incl_known_findings": total + len(known_hit),
             "obligation_families": len(fams),
             "refuted_known_findings": sorted({o["name"] for o, _ in known_hit})[:50],
             "refuted_new": sorted({o["name"] for o, _ in new_viol})[:50],
